@@ -34,7 +34,7 @@ VIOLATION_MSG = re.compile(
     r"(postcondition not satisfied|precondition not satisfied|assertion failed|"
     r"invariant not satisfied|possible arithmetic (underflow|overflow)|possible division by zero|"
     r"decreases not satisfied|could not prove termination|unreachable|"
-    r"possible bit shift|constructed value may fail|failed this|cannot show)", re.I)
+    r"possible bit shift|constructed value may fail|failed this|cannot show|unable to prove)", re.I)
 UNDECIDED_MSG = re.compile(r"(rlimit|resource limit|not supported|unsupported|timed? ?out)", re.I)
 
 TRUST_TOKENS = re.compile(
@@ -138,11 +138,9 @@ def fn_breakdown(out):
 
 
 def split_tag(ob_id):
-    """'name @C12' -> ('name', 'C12'); untagged -> (name, None)"""
-    if " @" in ob_id:
-        n, t = ob_id.rsplit(" @", 1)
-        return n.strip(), t.strip()
-    return ob_id, None
+    """'name @C11 @C12' -> ('name', ['C11', 'C12']); untagged -> (name, [])"""
+    parts = ob_id.split(" @")
+    return parts[0].strip(), [t.strip() for t in parts[1:]]
 
 
 def classify(diags, meta):
@@ -315,8 +313,8 @@ def check_rustc_unit(u, res, src, wd, meta):
     compile_ob = u.get("compile_obligation")
     if r.returncode != 0:
         first = "\n".join(r.stderr.split("\n")[:30])
-        marker = u.get("frame_type", "CurrentSessionId")
-        if compile_ob and marker in r.stderr:
+        markers = u.get("frame_markers", ["CurrentSessionId"])
+        if compile_ob and any(m in r.stderr for m in markers):
             res["failures"].append({"obligation": compile_ob, "item": compile_ob, "message":
                                     "extracted text does not type-check against the frame: " + first, "spans": []})
             res["obligations"].append({"id": compile_ob, "item": compile_ob, "kind": "frame", "status": "failed",
@@ -428,16 +426,16 @@ def project(res, u, prop):
 
     def owner(ob_id):
         n, t = split_tag(ob_id)
-        return n, (t or home)
+        return n, (t or [home])
     obs = []
     for o in res["obligations"]:
         n, own = owner(o["id"])
-        if own == prop:
+        if prop in own:
             obs.append(dict(o, id=n))
     fails = []
     for f in res["failures"]:
         n, own = owner(f["obligation"])
-        if own == prop:
+        if prop in own:
             fails.append(dict(f, obligation=n))
         else:
             res["undecided"].append(f"obligation `{n}` of property {own} failed in the shared unit {res['unit']}; "
@@ -464,10 +462,16 @@ def do_check(prop, args, scratch, seed, t0):
     failures = [(r["unit"], f) for r in results for f in r["failures"]]
 
     witness = {}
-    need_witness = args.tier == "thorough" or any(f["obligation"] not in known_open for _, f in failures)
+    # Native witnesses run (a) in the thorough tier, (b) to replay a refuted obligation, and (c) when the verifier is
+    # UNDECIDED on a unit (changed code outside what Verus / the stand-ins accept): a failing run of the real code
+    # against the property statement is still a violation with a failing input — decided by a bounded native check,
+    # labelled as such, never counted as proved.
+    und_units = {r["unit"] for r in results if r["undecided"]}
+    need_witness = args.tier == "thorough" or any(f["obligation"] not in known_open for _, f in failures) or bool(und_units)
     if need_witness:
         for u in units:
-            if u.get("witness"):
+            if u.get("witness") and (args.tier == "thorough" or u["unit"] in und_units
+                                     or any(n == u["unit"] for n, _ in failures)):
                 failed = [f["obligation"] for n, f in failures if n == u["unit"]]
                 witness[u["unit"]] = run_witness(u, scratch, failed, args.tier)
 
@@ -511,7 +515,8 @@ def do_check(prop, args, scratch, seed, t0):
                     json.dump({"property": prop, "unit": unit, "obligation": None, "witness":
                                {"failing_tests": [t], "cmd": w.get("_cmd"), "output": w.get("_output")},
                                "found_failing_input": True}, open(rp, "w"), indent=1)
-                    violations.append(f"VIOLATION property={prop} replay={rp} native-witness={t}")
+                    how = "verifier-undecided;decided-by=bounded-native-witness" if unit in und_units else "native-witness"
+                    violations.append(f"VIOLATION property={prop} replay={rp} {how}={t}")
         elif "_error" in w and args.tier == "thorough":
             undecided.append((unit, "witness: " + w["_error"]))
 
